@@ -102,7 +102,7 @@ ADDED = {
  "C02": ("line-accounting invariant over enumerated iteration paths (linear forms)", " Line accounting: on every path through one iteration of the tokenizer's rune loop the line counter plus the held-back line breaks advance by exactly one when the decoded rune is a newline and not otherwise, and no held line break survives the hand-over of a line's words to the document (so StartLine/EndLine are the lines the words stand on)."),
  "C03": ("line-accounting invariant over enumerated iteration paths, loop-nesting rule for token production", " The line-to-tokens conversion emits at most one token per buffered word (token indices stay below the number of input words); the line counter obeys the accounting invariant described under C02."),
  "C04": ("must-pass-through rule for AddContent", " AddContent reaches addDocument on every path; an explicitly set go-diff DiffTimeout is reported like the default one."),
- "C05": ("scan-position rule", " The scan position moves only by the size of the decoded rune (no byte is stepped over without being decoded and dispatched)."),
+ "C05": ("scan-position rule, result-provenance rule for the token clean-up", " The scan position moves only by the size of the decoded rune (no byte is stepped over without being decoded and dispatched); the token clean-up returns text it built rune by rune, never its raw argument unless that was shown to consist of letters only."),
  "C06": ("dominance rule for the notice patterns, key-provenance rule for the spelling table", " The notice patterns are consulted on every path that reaches the token loop; the spelling table is looked up with the cleaned word; integer tokenizer state survives buffer refills too."),
  "C08": ("scan-position rule", " The scan position moves only by the size of the decoded rune; all tokenizer state (flags, line, held line breaks) is carried across buffer refills."),
  "C10": ("division-guard facts, loop-carried string accumulation rule", " Every integer division by a run-time value is dominated by a non-zero test; no loop extends a string by concatenation (quadratic time on a very long line); the run detector gets the clamped q."),
@@ -111,7 +111,7 @@ ADDED = {
  "C13": ("def-use rule for the raw text, comparator strictness by finite relation enumeration, occurrence-shortcut path rule", " A function that normalises its text parameter uses the raw parameter for nothing else; result lists are sorted by a strict order on exact comparisons with Confidence first; the exact-occurrence shortcut can assign first and last token on one path."),
  "C14": ("publish-after-initialise ordering rule", " A known value is stored in the shared map only after its fields are initialised."),
  "C15": ("loop-scope rule for the decoded search set, order rule for the trailing-text cut", " Each archive entry is decoded into a search set variable declared inside the loop over the entries; the trailing text is cut off before any element of Normalizers is applied."),
- "C17": ("SSA shape rule for TargetRange", " Tokens may also be cut from the input in one piece (Text: s[a:b], Offset: a, b a scan position or len(s)); a candidate's byte range runs from the Offset of token TargetStart to Offset+len(Text) in bytes of token TargetEnd-1, both taken from the same token."),
+ "C17": ("SSA shape rule for TargetRange, path enumeration of the scan loop", " A path through one iteration of Tokenize's scan loop on which the rune contributes to no token has taken the true branch of unicode.IsSpace(r). Tokens may also be cut from the input in one piece (Text: s[a:b], Offset: a, b a scan position or len(s)); a candidate's byte range runs from the Offset of token TargetStart to Offset+len(Text) in bytes of token TargetEnd-1, both taken from the same token."),
  "C18": ("tables read by conditional constant propagation over SSA (one declared Language constant at a time)", " The lexed text is the input plus at most a terminating newline; string contents are recorded as a comment only behind a triple-quote match; every cycle of lex passes an end-of-input test."),
  "C19": ("no-early-exit loop rule, value-identity rule for the bytes matched", " The loop over the library's matches has no early exit; the bytes given to Match are the bytes this call read from the named file; literals and record sites are followed through unexported helpers."),
  "C20": ("both-inclusions rule for Equal", " Equal returns true only behind both inclusions (equal map sizes and one containment loop, or containment loops in both directions)."),
